@@ -412,11 +412,10 @@ func (c *Client) recv(keepaliveQuit chan<- struct{}) {
 				Space: stanza.NSStreamManagement,
 				Local: "a",
 			}, H: c.Session.SMState.Inbound}
-			err = c.Send(answer)
-			if err != nil {
-				c.ErrorHandler(err)
-				return
-			}
+			// If the answer cannot be written the connection is going down. Keep reading anyway: what was
+			// already received must still be routed, and the read error that follows reports the loss
+			// (error callback and Disconnected event) exactly once.
+			_ = c.Send(answer)
 		case stanza.StreamClosePacket:
 			// TCP messages should arrive in order, so we can expect to get nothing more after this occurs
 			c.transport.ReceivedStreamClose()
